@@ -79,10 +79,12 @@ def membership_ok(f, names, probe):
             return False
         if not is_arg:
             try:
-                type(f).amqp_type(cand)
-                return False          # a wire type for something that is not an argument of this class
-            except AttributeError:
-                pass
+                t = type(f).amqp_type(cand)
+            except Exception:
+                t = None
+            for w in spec.WIRE_TYPES:
+                if t == w:
+                    return False      # a wire type for something that is not an argument of this class
     for cand in ("", "name", "index", "frame_id", "synchronous", "valid_responses", "marshal", "flags"):
         is_arg = False
         for n in names:
